@@ -583,15 +583,18 @@ var sliceExceptions = map[string]string{
 	"evaluateBooleanFilter:filter[:opIndex]":         "opIndex is the second result of findFilterOperator(filter), which returns either (\"\", -1) — tested for just above — or an index i of its own scan loop over filter: 0 <= i < len(filter)",
 	"evaluateBooleanFilter:filter[opIndex+len(op):]": "findFilterOperator returns op = filter[i:i+2] (taken under i+1 < len(filter)) or filter[i:i+1] together with that i: opIndex+len(op) <= len(filter)",
 	"getItalianRegions:runes[i-1]":                   "second region loop starts at i = r1, and r1 is either len(runes) (loop body never runs) or an index+1 ≥ 2 found by the first loop: i ≥ 1 whenever the body runs",
+	"nodeSortLabel:m[:idx]":                          "idx is strings.IndexByte(m, '\\n') of the very string that is cut, tested > 0 on the path: an index into m",
 	"step3_final_vowels:newS[:len(newS)-1]":          "newS is s minus its final byte and the branch is entered only when s ends in \"chi\"/\"ghi\": len(newS) ≥ 2",
 }
 
 func ruleGRDslice(w *World, r *Report) {
 	r.Doc("GRD-slice", "every index and slice expression in the tokeniser, stemmers, compressor, splitter and chunker is in bounds on every path: the compiler's prove pass eliminates its bounds check, or a length lower bound from the code's own idioms (HasSuffix/HasPrefix on the true edge, len comparisons, constant re-slicing, []rune of a non-empty string, the clamped window of the chunker) covers it, or it is one of the table exceptions argued by hand", 15)
 	files := map[string]bool{}
-	pkgArgs := []string{"./" + taPkg, "./" + textPkg, "./" + ragPkg, "./pkg/core"}
-	// of pkg/core only the request-driven filter parser (strings that come straight from a request)
+	pkgArgs := []string{"./" + taPkg, "./" + textPkg, "./" + ragPkg, "./pkg/core", "./pkg/engine", "./internal/server"}
+	// of pkg/core only the request-driven filter parser (strings that come straight from a request); of pkg/engine and
+	// internal/server the two helpers that index or cut request-supplied values (a metadata list, a stored content string)
 	coreFuncs := map[string]bool{"evaluateBooleanFilter": true, "findFilterOperator": true, "FindIDsByFilter": true}
+	scoped := map[string]map[string]bool{"pkg/core": coreFuncs, "pkg/engine": {"processAutoLinks": true}, "internal/server": {"nodeSortLabel": true}}
 	for _, rel := range []string{taPkg, textPkg} {
 		if p := w.Pkg(rel); p != nil {
 			for _, f := range p.Syntax {
@@ -606,6 +609,8 @@ func ruleGRDslice(w *World, r *Report) {
 	}
 	files[ragPkg+"/splitter.go"] = true
 	files["pkg/core/core.go"] = true
+	files["pkg/engine/ops.go"] = true
+	files["internal/server/http_handlers.go"] = true
 	sites, err := compilerUnprovenBounds(w, pkgArgs)
 	if err != nil {
 		r.Und("GRD-slice", "compiler-bce", "", err.Error())
@@ -619,14 +624,14 @@ func ruleGRDslice(w *World, r *Report) {
 	byPos := map[key][]ssa.Instruction{}
 	fnOf := map[ssa.Instruction]*ssa.Function{}
 	total := 0
-	for _, rel := range []string{taPkg, textPkg, ragPkg, "pkg/core"} {
+	for _, rel := range []string{taPkg, textPkg, ragPkg, "pkg/core", "pkg/engine", "internal/server"} {
 		for _, fn := range w.pkgSSAFuncs(rel) {
-			if rel == "pkg/core" {
+			if only := scoped[rel]; only != nil {
 				root := fn
 				for root.Parent() != nil {
 					root = root.Parent()
 				}
-				if !coreFuncs[root.Name()] {
+				if !only[root.Name()] {
 					continue
 				}
 			}
@@ -675,8 +680,8 @@ func ruleGRDslice(w *World, r *Report) {
 	for _, s := range rest {
 		ins := byPos[key{s.file, s.line, s.col}]
 		pos := fmt.Sprintf("%s:%d", s.file, s.line)
-		if len(ins) == 0 && s.file == "pkg/core/core.go" {
-			continue // outside the filter parser: not in scope
+		if len(ins) == 0 && (s.file == "pkg/core/core.go" || s.file == "pkg/engine/ops.go" || s.file == "internal/server/http_handlers.go") {
+			continue // outside the scoped functions of that file: not in scope
 		}
 		if len(ins) == 0 {
 			r.Und("GRD-slice", fmt.Sprintf("unmapped:%s", filepath.Base(s.file)), pos, fmt.Sprintf("the compiler reports an unproven %s at column %d that does not map to an index/slice instruction", s.kind, s.col))
